@@ -192,6 +192,14 @@ Qed.
 Lemma bs_free_std s : bs_free std_sql s = true.
 Proof. reflexivity. Qed.
 
+Theorem string_roundtrip_std s : esc_known QUOTE s = false -> sql_lex std_sql (emit_string s) = [TString s].
+Proof. intro H. apply string_roundtrip_ok. unfold str_ok. rewrite H. reflexivity. Qed.
+
+Theorem string_fixed_std_in_context s pre suf :
+  closed_prefix std_sql pre = true -> starts_with 39 suf = false ->
+  sql_lex std_sql (pre ++ emit_string_fixed s ++ suf) = sql_lex std_sql pre ++ TString s :: sql_lex std_sql suf.
+Proof. apply string_fixed_in_context. reflexivity. Qed.
+
 (* strings without quote and backslash are fine everywhere (dates, times, numbers in quotes) *)
 Lemma safe_chars_ok d s : forallb (fun c => negb (c =? 39) && negb (c =? 92)) s = true -> str_ok d s = true.
 Proof.
